@@ -106,6 +106,26 @@ RowSumIsMass == \A c \in Nodes : (~Dirichlet(c) /\ c[1] > 0) =>
 \* diagonal dominance structure: positive diagonal, non-positive direct neighbours (M-matrix part)
 SignStructure == \A c \in Nodes : ~Dirichlet(c) => FPos(Coef(c, c))
 
+(* ------------------------- discretised right-hand side -------------------- *)
+\* build_rhs_f + discretize_rhs_f (src/GMGPolar/build_rhs_f.cpp): Dirichlet nodes carry the boundary data (weight 1 on u_D),
+\* every other node the source term times the quadrature weight 1/4 (h1+h2)(k1+k2) |det DF| (h1 = 2 R0 across the origin)
+RhsWeight(c) ==
+  IF Dirichlet(c) THEN FOne
+  ELSE LET h1 == IF c[1] = 0 THEN 2 * g.r0 ELSE H(c[1] - 1)
+       IN FNorm((h1 + H(c[1])) * (K(c[2] - 1) + K(c[2])) * Det(c), 4)
+\* the zeroth-order term of the operator and the right-hand side use the same quadrature weight: the constant function
+\* u = 1 solves the discrete system exactly for f = beta on every 9-point row (where also the mixed terms cancel)
+ConstantSolutionExact == \A c \in Nodes : (~Dirichlet(c) /\ c[1] > 0) => RowSum(A[c], 1) = FMul(FInt(Beta(c[1])), RhsWeight(c))
+\* the same quantities on the next coarser grid (every second node): spacings add up, coefficients are those of the coarse nodes
+HC2(i) == H(2 * i) + H(2 * i + 1)
+KC2(u) == K(2 * u) + K(2 * u + 1)
+CoarseRhsWeight(c) ==      \* c = coarse multi-index
+  LET fine == <<2 * c[1], 2 * c[2]>>
+      nrc == (g.nr + 1) \div 2
+  IN IF c[1] = nrc - 1 \/ (c[1] = 0 /\ g.dir) THEN FOne
+     ELSE LET h1 == IF c[1] = 0 THEN 2 * g.r0 ELSE HC2(c[1] - 1)
+          IN FNorm((h1 + HC2(c[1])) * (KC2(c[2] - 1) + KC2(c[2])) * Det(fine), 4)
+
 (* -------------------- line partition, colours, sweep order ---------------- *)
 \* line of a node: circle i_r for i_r < nc, radial line theta otherwise
 LineOf(n) == IF n[1] < g.nc THEN <<"C", n[1]>> ELSE <<"R", n[2]>>
@@ -153,6 +173,8 @@ Table == [nr |-> g.nr, nt |-> g.nt, nc |-> g.nc, h |-> g.h, k |-> g.k, r0 |-> g.
           arr |-> [n \in 1..(g.nr * g.nt) |-> Arr(NodeSeq[n])], art |-> [n \in 1..(g.nr * g.nt) |-> Art(NodeSeq[n])],
           det |-> [n \in 1..(g.nr * g.nt) |-> Det(NodeSeq[n])], beta |-> [i \in 1..g.nr |-> Beta(i - 1)],
           rows |-> [n \in 1..(g.nr * g.nt) |-> A[NodeSeq[n]]],
+          rhsw |-> [n \in 1..(g.nr * g.nt) |-> RhsWeight(NodeSeq[n])],
+          rhswc |-> IF g.nr % 2 = 1 /\ g.nt % 4 = 0 THEN [n \in 1..(((g.nr + 1) \div 2) * (g.nt \div 2)) |-> CoarseRhsWeight(<<(n - 1) \div (g.nt \div 2), (n - 1) % (g.nt \div 2)>>)] ELSE <<>>,
           lines |-> [i \in 1..Len(SortedLines) |-> [kind |-> SortedLines[i][1], id |-> SortedLines[i][2], phase |-> Phase(SortedLines[i])]]]
 Emit == IF EmitTables THEN PrintT("@@CASE " \o ToJson(Table)) ELSE TRUE
 =============================================================================
